@@ -340,3 +340,28 @@ func NativeBigPayload() bool {
 	}
 	return false
 }
+
+// AllocLimit declares the largest allocation the code under test may size from
+// untrusted input (e.g. a frame's maximum size).  Under the interpreter every
+// make([]T, n) with a symbolic n is then an assertion n <= limit decided by the
+// solver over all inputs; natively it is a no-op (0 switches it off).
+func AllocLimit(n int) {
+	var ms runtime.MemStats
+	runtime.ReadMemStats(&ms)
+	mu.Lock()
+	defer mu.Unlock()
+	if n == 0 && nativeAllocLimit > 0 {
+		// natively: total bytes allocated while the limit was armed (the harness arms it
+		// around a single call, whose other allocations are small)
+		if delta := ms.TotalAlloc - nativeAllocBase; delta > uint64(nativeAllocLimit)+1<<16 {
+			Failures = append(Failures, fmt.Sprintf("ASSERT an allocation sized by untrusted input never exceeds the documented limit (allocated %d bytes, limit %d)", delta, nativeAllocLimit))
+		}
+	}
+	nativeAllocLimit = n
+	nativeAllocBase = ms.TotalAlloc
+}
+
+var (
+	nativeAllocLimit int
+	nativeAllocBase  uint64
+)
